@@ -123,3 +123,26 @@ fn c04_q_count_days_in_month_total() {
     assert_eq!(opening_hours::verif_hooks::count_days_in_month(d), month_len(d.year(), d.month()));
     kani::cover!(d.year() % 400 == 0 && d.month() == 2, "February of a year divisible by 400 reachable");
 }
+
+/// `1900-9999/65535`: a year range with ANY step 1..=65535 and any bounds the parser accepts
+/// (1900..=9999), any chrono date: filter and hint never panic (u16 arithmetic on the step), and a
+/// hint lies strictly after the date it was asked for (the iterator relies on progress).
+#[kani::proof]
+#[kani::unwind(1)]
+fn c04_q_year_any_step() {
+    use opening_hours_syntax::rules::day::{Year, YearRange};
+    let d = any_chrono_date();
+    let a: u16 = kani::any();
+    let b: u16 = kani::any();
+    let step: u16 = kani::any();
+    kani::assume(1900 <= a && a <= 9999 && 1900 <= b && b <= 9999 && step >= 1);
+    let sel = YearRange { range: Year(a)..=Year(b), step };
+    let ctx = Context::default();
+    let _ = sel.filter(d, &ctx);
+    let h = sel.next_change_hint(d, &ctx);
+    if let Some(h) = h {
+        assert!(h > d || d >= opening_hours::verif_hooks::DATE_END.date(), "a hint lies strictly after the date");
+    }
+    kani::cover!(step > 60_000 && a < b && d.year() > a as i32 && d.year() < b as i32, "huge step inside the range reachable");
+    kani::cover!(h.is_none(), "wrapping range (no hint) reachable");
+}
